@@ -24,6 +24,7 @@ def parse_air(log):
 # DID[0] = n: the initiator assigns device identifier n in ATR_REQ (connect()
 # has no option for it; a foreign initiator may do so)
 DID = [None]
+NAD = [None]      # a (foreign) initiator may also use a node address
 _patched = []
 
 
@@ -37,6 +38,8 @@ def _patch_initiator():
         def activate(self, target=None, **options):
             if DID[0] is not None:
                 options.setdefault('did', DID[0])
+            if NAD[0] is not None:
+                options.setdefault('nad', NAD[0])
             return base.activate(self, target, **options)
     nfc.dep.Initiator = Initiator
     _patched.append(base)
